@@ -82,7 +82,9 @@ impl ToTokens for Expansion {
         let ident = &self.ident;
         let (impl_generics, ty_generics, where_clause) = self.generics.split_for_impl();
 
-        let repr_ty = &self.repr.ty();
+        // A type named like a primitive may be in the scope of the enum.
+        let repr_ty = self.repr.ty();
+        let repr_ty = &quote! { derive_more::core::primitive::#repr_ty };
 
         // Every explicit discriminant is evaluated once, as a constant of the `repr` type: exactly
         // the context `rustc` itself evaluates it in (so `x as _` infers), except that the constant
